@@ -15,6 +15,7 @@ CLAIMED = {
  'C08': ('rename through the real handle_rename at tree level: refused onto an existing note; old name deleted and new name created exactly once; exactly the linking notes and the new note are written; no link to the old name remains, every such link now points to the new name, all other links and all text kept', '3 C08'),
  'C09': ('extract / inline code actions at tree level: text conserved exactly once across the edited notes, fresh distinct names, one titled reference per extracted section, inlined note deleted and its links re-relativised, for every node x provider within the bounds', '3 C09'),
  'C10': ('list/section conversions at tree level: only the note is rewritten, every word and link kept in order, only the targeted list changes type', '3 C10'),
+ 'C11': ('the notification step of the message loop for every number of live request workers (symbolic count of Arc clones, fairness: workers terminate): every didChange / didSave is applied, other notifications change nothing', '3 C11'),
  'C12': ('handler -> liwe boundary for code actions: no panic edge reachable in action()/changes() for any node x provider, every offered action resolves', '3 C12'),
  'C13': ('offset -> line/column kernels: to_line_range / to_inline_range for every sorted line table and byte range (symbolic 64-bit), line_starts for every line structure with LF / CRLF terminators and symbolic line lengths', '3 C13'),
  'C17': ('squash == independent bounded expansion for every reference graph within the bounds and symbolic u8 depth; termination (call-depth bound never hit); CLI rebuild of the squashed tree is faithful', '3 C17'),
@@ -23,7 +24,6 @@ CLAIMED = {
 }
 NA = {
  'C02': 'property is about re-parsing emitted text: string rendering and pulldown-cmark are outside what either engine can execute symbolically (DESIGN 3 C02)',
- 'C11': 'quantifies over thread interleavings of the router; neither Kani nor the MIR executor models threads / Arc strong counts (DESIGN 3 C11)',
  'C14': 'percent-encoded URL string surgery plus directory walking; no integer kernel, file system not encodable (DESIGN 3 C14)',
  'C15': 'the law lives in third-party byte-level path code (relative-path); the executor only has a model of it, which cannot be the deciding step (DESIGN 3 C15)',
  'C16': 'scheduler and hash-seed nondeterminism are environment, not program data (DESIGN 3 C16)',
